@@ -2,7 +2,7 @@
 
 Every case is run through the real binary in write, --print-only and --diff mode and
 through the library API; TLC (spec/TraceModes.tla) evaluates the relations."""
-import os
+import os, re
 import fam_rewrite as frw
 import fam_run as fr
 from vlib import Infra, read_ndjson, write_ndjson, NCPU
@@ -17,6 +17,7 @@ CHECK_DEADLOCK FALSE
 """
 
 FILE = "dir/target.go"
+TWIN = "dir/twin.go"     # a second name (hard link) of FILE in the scenarios that say so
 
 
 def cases(ctx, quick):
@@ -65,18 +66,49 @@ def cases(ctx, quick):
     # a line longer than any line buffer (64 KiB is the default of bufio.Scanner), LF and CRLF
     long_line = "package a\n\nvar s = \"" + "x" * 70000 + "\"\n\nfunc f() {\n\tfoo(1)\n}\n"
     out.append(dict(id="kind-match-longline", patch=fr.PATCH, src=long_line, api_out=None, api_err=None))
+    # one file under two names (hard links), both given to the command, and a change whose result still matches
+    # it: each name's bytes are what the dry modes show for that name and what the API returns for the original bytes
+    again = "@@\nvar x expression\n@@\n-wait(x)\n+wait(2 * x)\n"
+    out.append(dict(id="twin-again", patch=again, src="package a\n\nfunc f() {\n\twait(3)\n}\n", api_out=None, api_err=None, twin=True))
+    out.append(dict(id="twin-match", patch=fr.PATCH, src=fr.MATCH, api_out=None, api_err=None, twin=True))
     out.append(dict(id="kind-match-longline-crlf", patch=fr.PATCH, src=long_line.replace("\n", "\r\n"), api_out=None, api_err=None))
     return out
 
 
+def part_of(stdout, c, mode):
+    """what the run printed for the name that the case stands for (runs over two names of one file print two parts)"""
+    if not c.get("twin"):
+        return stdout
+    k = 1 if c.get("twin") == 2 else 0
+    if mode == "d":
+        parts = re.split(r"(?m)^(?=--- )", stdout)
+        parts = [p for p in parts if p]
+        want = TWIN if k else FILE
+        return "".join(p for p in parts if p.split("\n", 1)[0].rstrip().endswith(want))
+    # --print-only: the new text of each file, in the order of processing (the names sort as FILE < TWIN)
+    half = len(stdout) // 2
+    if stdout[:half] == stdout[half:]:
+        return stdout[:half]
+    return stdout
+
+
 def run_modes(ctx, cs):
     scs, reqs = [], []
+    twins = []
+    for c in cs:
+        if c.get("twin"):
+            # the record of the second name is made from the same runs
+            twins.append(dict(c, id=c["id"] + "-2nd", twin=2))
+    cs += twins
     for c in cs:
         for si in (False, True):
             for mode, flag in (("w", []), ("p", ["--print-only"]), ("d", ["--diff"])):
+                if c.get("twin") == 2:
+                    continue
                 scs.append(dict(id="%s|%d|%s" % (c["id"], si, mode),
                                 files=[dict(path=FILE, content=c["src"]), dict(path="p.patch", content=c["patch"])],
-                                dirs=[], symlinks=[], args=flag + (["--skip-import-processing"] if si else []) + ["-p", "p.patch", FILE],
+                                hardlinks=[dict(path=TWIN, target=FILE)] if c.get("twin") else [],
+                                dirs=[], symlinks=[], args=flag + (["--skip-import-processing"] if si else []) + ["-p", "p.patch", FILE] + ([TWIN] if c.get("twin") else []),
                                 stdin="", cwd="", strace=False, timeout_ms=20000))
         if c["api_out"] is None:
             reqs.append(dict(id=c["id"], op="apply", patch=c["patch"], name="target.go", src=c["src"]))
@@ -92,9 +124,14 @@ def run_modes(ctx, cs):
     # apply diffs, parse everything
     reqs = []
     for c in cs:
+        if c.get("twin") == 2:
+            for si in (0, 1):
+                for mode in ("w", "p", "d"):
+                    recs["%s|%d|%s" % (c["id"], si, mode)] = recs["%s|%d|%s" % (c["id"][:-4], si, mode)]
+    for c in cs:
         for si in (0, 1):
             d = recs["%s|%d|d" % (c["id"], si)]
-            reqs.append(dict(id="%s|%d|applydiff" % (c["id"], si), op="applydiff", src=c["src"], diff=d["stdout"]))
+            reqs.append(dict(id="%s|%d|applydiff" % (c["id"], si), op="applydiff", src=c["src"], diff=part_of(d["stdout"], c, "d")))
     inp, outp = ctx.path("emit", "ad.in.ndjson"), ctx.path("emit", "ad.out.ndjson")
     write_ndjson(inp, reqs)
     ctx.run_vh(["api", "-in", inp, "-out", outp])
@@ -109,9 +146,9 @@ def run_modes(ctx, cs):
                 if r["timeout"]:
                     out = "<timeout>"
                 elif mode == "w":
-                    out = r["content"].get(FILE, "<missing>")
+                    out = r["content"].get(TWIN if c.get("twin") == 2 else FILE, "<missing>")
                 elif mode == "p":
-                    out = r["stdout"]
+                    out = part_of(r["stdout"], c, "p")
                 else:
                     a = ad["%s|%d|applydiff" % (c["id"], si)]
                     out = a["out"] if not a["err"] else "<diff does not apply: %s>" % a["err"]
